@@ -312,7 +312,7 @@ func (w *wrappedQueue) Startup() {
 	w.MessageQueue.Startup()
 }
 func (w *wrappedQueue) Shutdown() {
-	atomic.StoreInt64(&w.info.shutdown, mon.Tick())
+	atomic.CompareAndSwapInt64(&w.info.shutdown, 0, mon.Tick())
 	w.MessageQueue.Shutdown()
 }
 
@@ -330,8 +330,25 @@ func newRig(total, perPeer uint64, retries int) *rig {
 			atomic.StoreInt64(&info.exited, mon.Tick())
 			onShutdown(pp)
 		})
+		r.mu.Lock()
 		info.q = q
+		r.mu.Unlock()
 		return &wrappedQueue{q, info, r}
+	})
+	// a queue also shuts itself down (connect / sender failure): the hook reports the moment done is closed
+	mon.ExtraSink.Store(func(point string, kv ...any) {
+		if point != "mq.shutdown" || len(kv) == 0 {
+			return
+		}
+		mq, _ := kv[0].(*messagequeue.MessageQueue)
+		now := mon.Tick()
+		r.mu.Lock()
+		for _, q := range r.queues {
+			if q.q == mq && mq != nil {
+				atomic.CompareAndSwapInt64(&q.shutdown, 0, now)
+			}
+		}
+		r.mu.Unlock()
 	})
 	r.ra = responseassembler.New(ctx, r.pm)
 	r.q = &mon.Quiescer{BusyBase: verifhook.BusyCount()}
@@ -501,6 +518,9 @@ func (w *world) buildRaw(producer int, p peer.ID, req graphsync.RequestID, block
 		}
 		mb.AddBlockData(req, buildData{id, uint64(blockBytes)})
 		mb.SetSubscriber(req, party)
+		// the response assembler registers the request's response stream with every message it builds;
+		// a failed message closes the streams it carries and scrubs their requests from pending messages
+		mb.SetResponseStream(req, nopCloser{})
 	})
 	b.Ret = mon.Tick()
 	w.mu.Lock()
@@ -508,6 +528,10 @@ func (w *world) buildRaw(producer int, p peer.ID, req graphsync.RequestID, block
 	w.mu.Unlock()
 	return b
 }
+
+type nopCloser struct{}
+
+func (nopCloser) Close() error { return nil }
 
 var errInjected = errors.New("verif: injected network failure")
 
@@ -695,7 +719,21 @@ func TestQueue(t *testing.T) {
 			fl.Lock()
 			fls := append([]string(nil), flapLog...)
 			fl.Unlock()
-			return map[string]any{"case": ci, "peers": npeers, "producers": nprod, "retries": retries, "fault": faultKind, "fail_every": failEvery, "targeted_shutdown_delay": targeted,
+			var evs []string
+			w.mu.Lock()
+			for rq, pt := range w.parties {
+				pt.mu.Lock()
+				for _, e := range pt.events {
+					evs = append(evs, fmt.Sprintf("seq=%d request=%s topic=%v event=%d builds=%v %s", e.Seq, rq.String()[:8], e.Topic, e.Name, e.Builds, e.Err))
+				}
+				for tp, n := range pt.closes {
+					evs = append(evs, fmt.Sprintf("request=%s topic=%v closed x%d", rq.String()[:8], tp, n))
+				}
+				pt.mu.Unlock()
+			}
+			w.mu.Unlock()
+			sort.Strings(evs)
+			return map[string]any{"case": ci, "peers": npeers, "producers": nprod, "retries": retries, "fault": faultKind, "fail_every": failEvery, "targeted_shutdown_delay": targeted, "subscriber_events": evs,
 				"builds": bl, "queues": ql, "connection_events": fls, "event_log_tail": w.log.Tail(80)}
 		}
 		if inc == shuttingDown && p.Prop == "C17" {
@@ -1127,6 +1165,141 @@ func TestLedger(t *testing.T) {
 			rep.Count("cases_with_message_split", 1)
 		}
 		if ci%200 == 0 {
+			d := detail()
+			delete(d, "event_log_tail")
+			rep.Sample(d)
+		}
+		w.close()
+	}
+	rep.Flush(true)
+}
+
+// ---------------------------------------------------------------- scripted histories (C16, C17)
+
+// TestQueueScripted builds the histories the concurrent workload rarely produces: a message held
+// inside SendMsg with several messages queued behind it, then (a) every retry of the held message
+// fails, so its requests are scrubbed from the pending messages, or (b) the peer's last connection
+// goes away (queue Shutdown) while the held send later succeeds or fails.
+func TestQueueScripted(t *testing.T) {
+	p := rt.Load()
+	rep := rt.NewReporter(p)
+	defer rep.Flush(false)
+	kinds := []string{"held-send-fails-all-retries", "shutdown-then-held-send-succeeds", "shutdown-then-held-send-fails", "shutdown-with-small-messages-queued"}
+	for _, ci := range p.Cases() {
+		r := p.RNG("mqs", ci)
+		kind := kinds[ci%len(kinds)]
+		retries := 1 + r.Intn(3)
+		w := newWorld(1<<30, 1<<29, retries)
+		pp := fab.PeerID(fmt.Sprintf("mqs-%d", ci))
+		var flapLog []string
+		refs := []int{0}
+		if kind != "held-send-fails-all-retries" || r.Intn(2) == 0 {
+			refs[0]++
+			flapLog = append(flapLog, fmt.Sprintf("%d connected(p0)", mon.Now()))
+			w.pm.Connected(pp)
+		}
+		rep.Journal("case %d kind=%s retries=%d", ci, kind, retries)
+		w.net.hold(pp)
+		nreq := 2 + r.Intn(3)
+		reqs := make([]graphsync.RequestID, nreq)
+		for i := range reqs {
+			reqs[i] = graphsync.NewRequestID()
+		}
+		big := func() int { return 300*1024 + r.Intn(100*1024) } // two of these never share a message
+		var script []string
+		mk := func(ri, size int) {
+			b := w.buildRaw(0, pp, reqs[ri], size, 0)
+			script = append(script, fmt.Sprintf("build %d request #%d size=%d", b.ID, ri, size))
+		}
+		mk(0, big())
+		inc := ""
+		// the first message must be inside SendMsg before the rest is queued behind it
+		for t0 := time.Now(); atomic.LoadInt64(&w.net.blocked) == 0; {
+			if time.Since(t0) > 20*time.Second {
+				inc = "the first message never reached SendMsg"
+				break
+			}
+			time.Sleep(100 * time.Microsecond)
+		}
+		nPending := 3 + r.Intn(5)
+		for k := 0; k < nPending && inc == ""; k++ {
+			ri := r.Intn(nreq)
+			if kind == "held-send-fails-all-retries" && k == 0 {
+				ri = 0 // a pending message that only carries the failing request, with others queued after it
+			} else if kind == "held-send-fails-all-retries" && k > 0 && k < 3 {
+				ri = 1 + r.Intn(nreq-1)
+			}
+			size := big()
+			if kind == "shutdown-with-small-messages-queued" || r.Intn(5) == 0 {
+				size = r.Intn(2000)
+			}
+			mk(ri, size)
+		}
+		switch kind {
+		case "held-send-fails-all-retries":
+			w.net.sendErr = func(_ peer.ID, n int) error {
+				if n < retries {
+					return errInjected
+				}
+				return nil
+			}
+			script = append(script, fmt.Sprintf("first %d send attempts fail", retries))
+		case "shutdown-then-held-send-fails":
+			nf := 1 + r.Intn(retries)
+			w.net.sendErr = func(_ peer.ID, n int) error {
+				if n < nf {
+					return errInjected
+				}
+				return nil
+			}
+			script = append(script, fmt.Sprintf("first %d send attempts fail", nf))
+		}
+		if kind != "held-send-fails-all-retries" && inc == "" {
+			refs[0]--
+			flapLog = append(flapLog, fmt.Sprintf("%d disconnected(p0)", mon.Now()))
+			w.pm.Disconnected(pp)
+			script = append(script, "Disconnected (last connection)")
+		}
+		w.net.releaseAll()
+		script = append(script, "held send released")
+		if inc == "" {
+			if ok, why := w.quiesce(); !ok {
+				inc = why
+			}
+		}
+		rep.Eval()
+		detail := func() map[string]any {
+			var ql []string
+			w.rig.mu.Lock()
+			for _, q := range w.queues {
+				ql = append(ql, fmt.Sprintf("queue %d peer=%s created=%d started=%d shutdown=%d exited=%d", q.id, short(q.p), q.created, atomic.LoadInt64(&q.started), atomic.LoadInt64(&q.shutdown), atomic.LoadInt64(&q.exited)))
+			}
+			w.rig.mu.Unlock()
+			var wl []string
+			w.net.mu.Lock()
+			for _, rec := range w.net.wire {
+				wl = append(wl, fmt.Sprintf("seq=%d builds=%v bytes=%d", rec.Seq, rec.Builds, rec.Bytes))
+			}
+			w.net.mu.Unlock()
+			return map[string]any{"case": ci, "kind": kind, "retries": retries, "script": script, "queues": ql, "wire": wl, "connection_events": append([]string(nil), flapLog...), "event_log_tail": w.log.Tail(60)}
+		}
+		switch {
+		case inc == shuttingDown && p.Prop == "C17":
+			rep.Violation(ci, "C17/queue-never-exits-after-shutdown", "a queue whose peer's last connection went away was shut down but its run loop is still live after 20 s with nothing else happening", detail())
+		case inc != "":
+			rep.Inconclusive("case %d: %s", ci, inc)
+		default:
+			if p.Prop == "C16" {
+				checkC16(rep, ci, w, detail)
+			}
+			if p.Prop == "C17" {
+				checkC17(rep, ci, w, []peer.ID{pp}, refs, detail)
+			}
+			rep.Nontrivial(rt.Key("mqs", ci, kind, retries, nPending))
+			rep.Count("scripted_histories", 1)
+			rep.SetAdd("scripted_kinds", kind)
+		}
+		if ci%101 == 0 {
 			d := detail()
 			delete(d, "event_log_tail")
 			rep.Sample(d)
